@@ -254,3 +254,26 @@ CORPUS += [
     V("C17", "mdam-rollout-left-in-training-mode", _MDM, "    model.eval()\n    model = model.to(device)", "    model = model.to(device)", "C17.g"),
     V("C12", "augmentation-eval-raw-gather-and-squeeze", _EV, "        actions = gather_by_index(actions, max_idxs, dim=1)\n        return actions, rewards\n\n    @property", "        actions = torch.take_along_dim(actions, max_idxs[:, None, None], dim=1).squeeze()\n        return actions, rewards\n\n    @property", "C12.c"),
 ]
+
+# ---- round 6, second batch: rows decided per instance (C02.j / C08.i), finished selection rows (C02.k), parser (C02.l),
+# exact distances (C03.i / C08.j), rewards read frozen state (C04.f / C04.g)
+_DM_OLD = "    distance = (locs[..., :, None, :] - locs[..., None, :, :]).norm(p=2, dim=-1)\n    return distance"
+CORPUS += [
+    V("C02", "mtsp-fleet-size-of-the-first-instance", _MTS, 'current_node != 0, td["agent_idx"] < td["num_agents"] - 1', 'current_node != 0, td["agent_idx"] < batch_to_scalar(td["num_agents"]) - 1', "C02.j"),
+    V("C02", "mcp-finished-row-all-masked", _MCE, "        action_mask = ~chosen\n\n        td.update(\n            {\n                \"membership\"", "        action_mask = ~chosen & ~done\n\n        td.update(\n            {\n                \"membership\"", "C02.k"),
+    V("C02", "flp-finished-row-all-masked", _FLP, "        action_mask = ~chosen\n\n        td.update(\n            {\n                \"distances\"", "        action_mask = ~chosen & ~done.unsqueeze(-1)\n\n        td.update(\n            {\n                \"distances\"", "C02.k"),
+    V("C02", "eq-mcp-mask-logical-not", _MCE, "        action_mask = ~chosen\n\n        td.update(\n            {\n                \"membership\"", "        action_mask = torch.logical_not(chosen)\n\n        td.update(\n            {\n                \"membership\"", None),
+    V("C02", "fjsp-parser-drops-last-alternative", _FPP, "durations = line[idx + 2 : idx + 2 + num_pairs : 2]", "durations = line[idx + 2 : idx + num_pairs : 2]", "C02.l"),
+    V("C02", "eq-fjsp-parser-stop-on-last-token", _FPP, "durations = line[idx + 2 : idx + 2 + num_pairs : 2]", "durations = line[idx + 2 : idx + 1 + num_pairs : 2]", None),
+    V("C19", "eq-fjsp-parser-stop-on-last-token-c19", _FPP, "durations = line[idx + 2 : idx + 2 + num_pairs : 2]", "durations = line[idx + 2 : idx + 1 + num_pairs : 2]", None),
+    V("C19", "fjsp-parser-machines-one-short", _FPP, "machines = line[idx + 1 : idx + 1 + num_pairs : 2]", "machines = line[idx + 1 : idx - 1 + num_pairs : 2]", "C19.c"),
+    V("C08", "mcp-quota-as-a-vector", _MCG, '"n_sets_to_choose": torch.ones(batch_size, 1)\n                * self.n_sets_to_choose,', '"n_sets_to_choose": torch.ones(batch_size)\n                * self.n_sets_to_choose,', "C08.i"),
+    V("C08", "flp-done-from-the-whole-batch", _FLP, '        done = td["i"] >= (td["to_choose"] - 1)', '        done = (td["i"] >= (td["to_choose"] - 1)).all().expand_as(td["i"])', "C08.i"),
+    V("C08", "distance-matrix-by-cdist", _OPS, _DM_OLD, "    return torch.cdist(locs, locs, p=2)", "C08.j"),
+    V("C03", "distance-matrix-by-cdist-c03", _OPS, _DM_OLD, "    return torch.cdist(locs, locs, p=2)", "C03.i"),
+    V("C03", "eq-distance-matrix-by-exact-cdist", _OPS, _DM_OLD, "    return torch.cdist(locs, locs, p=2, compute_mode=\"donot_use_mm_for_euclid_dist\")", None),
+    V("C04", "flp-reward-from-the-padded-actions", _FLP, '        chosen = td["chosen"]  # (batch_size, n_points)\n        batch_size_', '        chosen = torch.zeros_like(td["chosen"]).scatter(-1, actions, True)\n        batch_size_', "C04.f"),
+    V("C04", "mcp-reward-from-the-padded-actions", _MCE, '        chosen_sets = td["chosen"]  # (batch_size, n_set); 1 if chosen, 0 otherwise', '        chosen_sets = torch.zeros_like(td["chosen"]).scatter(-1, actions, True)', "C04.f"),
+    V("C04", "ffsp-reward-from-live-counters", _FF, '            end_schedule = td["schedule"] + td["job_duration"].permute(0, 2, 1)\n            # exclude dummy job and determine the makespan per job\n            end_time_max, _ = end_schedule[:, :, : self.num_job].max(dim=-1)\n            # determine the max makespan of all jobs\n            end_time_max, _ = end_time_max.max(dim=-1)',
+      '            end_time_max = td["time_idx"] + td["machine_wait_step"].max(dim=-1).values', "C04.g"),
+]
